@@ -21,6 +21,8 @@ type eqNode struct {
 	Cap  int      `json:"cap,omitempty"`
 	Kw   string   `json:"kw,omitempty"`
 	Op   int      `json:"op,omitempty"`
+	Sym  string   `json:"sym,omitempty"`  // stacks: operator symbol (both sides of a comparison carry the same one)
+	Fold bool     `json:"fold,omitempty"` // stacks: case folding on
 	Note string   `json:"note,omitempty"` // what was mutated
 	Same bool     `json:"same,omitempty"` // the mutation must NOT be noticed (unexported field)
 	M    int      `json:"-"`              // construction history used by build (see fill)
@@ -121,6 +123,15 @@ func (n eqNode) build() any {
 		v := n.Vs[0]
 		p1 := &v
 		p2 := &p1
+		if n.Kind == "depth4" || n.Kind == "depth6" {
+			p3 := &p2
+			p4 := &p3
+			if n.Kind == "depth4" {
+				return p4
+			}
+			p5 := &p4
+			return &p5
+		}
 		return &p2
 	case "nstruct":
 		v := n.Vs[0]
@@ -224,6 +235,12 @@ func (n eqNode) build() any {
 			vals = append(vals, k.build())
 		}
 		fill(s, vals, n.M)
+		if n.Sym != "" {
+			s.SetSymbol(n.Sym)
+		}
+		if n.Fold {
+			s.SetFold(true)
+		}
 		if n.T == "alias" {
 			return StackAlias(s)
 		}
@@ -239,7 +256,7 @@ func (n eqNode) String() string {
 	case "ptr":
 		return "&" + n.Kids[0].String()
 	case "slice", "array", "structE", "structU", "fslice", "ptr3":
-		return fmt.Sprintf("%s%v", n.T, n.Vs)
+		return fmt.Sprintf("%s%s%v", n.T, n.Kind, n.Vs)
 	case "sarr":
 		return fmt.Sprintf("sarr%q", n.Ss)
 	case "imap", "nstruct", "anyslice", "anyarr":
@@ -266,6 +283,12 @@ func (n eqNode) String() string {
 		return fmt.Sprintf("Cond(%s,%d,%s)", n.Kw, n.Op, n.Kids[0])
 	}
 	s := n.T + ":" + n.Kind
+	if n.Sym != "" {
+		s += "~" + n.Sym
+	}
+	if n.Fold {
+		s += "~fold"
+	}
 	if n.Cap > 0 {
 		s += fmt.Sprintf("/%d", n.Cap)
 	}
@@ -500,7 +523,7 @@ func (n eqNode) mutants() []eqNode {
 			// IsEqual documents that it does not distinguish slices from arrays of equal content
 			// ... and that pointers are flattened at any depth (a *int 7 is the leaf value 7); which hollow
 			// (zero-valued) handle sits where is not a difference the statement speaks about
-			norm := strings.NewReplacer("array", "slice", "&", "", "pstruct", "struct", "alias:", "stack:", "*[3]byte", "bytes", "[3]byte", "bytes", "[]byte", "bytes", "zero-StackAlias", "zero", "zero-Stack", "zero", "zero-Condition", "zero")
+			norm := strings.NewReplacer("ptr3depth4", "ptr3", "ptr3depth6", "ptr3", "array", "slice", "&", "", "pstruct", "struct", "alias:", "stack:", "*[3]byte", "bytes", "[3]byte", "bytes", "[]byte", "bytes", "zero-StackAlias", "zero", "zero-Stack", "zero", "zero-Condition", "zero")
 			if norm.Replace(n.Kids[i].String()) != norm.Replace(n.Kids[i+1].String()) {
 				m5 := cloneNode(n)
 				m5.Kids[i], m5.Kids[i+1] = m5.Kids[i+1], m5.Kids[i]
@@ -534,6 +557,7 @@ func eqLeaves() []eqNode {
 		{T: "barr", Kind: "[2]uint16", Vs: []int{1, 2}}, {T: "barr", Kind: "[2]bool", Vs: []int{1, 2}}, {T: "barr", Kind: "struct{[2]byte}", Vs: []int{1, 2, 4}},
 		{T: "barr", Kind: "map[string][2]byte", Vs: []int{1, 2}}, {T: "barr", Kind: "[2][2]byte", Vs: []int{1, 2, 4}},
 		{T: "zero", Kind: "Stack"}, {T: "zero", Kind: "Condition"}, {T: "zero", Kind: "StackAlias"},
+		{T: "ptr3", Kind: "depth4", Vs: []int{9}}, {T: "ptr3", Kind: "depth6", Vs: []int{9}},
 		{T: "holder", Kind: "[]Stack", Kids: []eqNode{{T: "stack", Kind: "OR", Kids: []eqNode{{T: "prim", V: "a"}}}, {T: "stack", Kind: "LIST", Kids: []eqNode{{T: "prim", V: 7, Kind: "int"}, {T: "prim", V: "b"}}}}},
 		{T: "holder", Kind: "[1]Condition", Kids: []eqNode{{T: "cond", Kw: "hk", Op: 2, Kids: []eqNode{{T: "prim", V: "hv"}}}}},
 	}
@@ -677,6 +701,9 @@ func c05Trees(c *Ctx) []eqNode {
 		}
 	}
 	nested = append(nested, eqNode{T: "stack", Kind: "LIST"}, eqNode{T: "alias", Kind: "AND", Kids: []eqNode{leaves[0], leaves[9]}})
+	// stacks whose presentation settings are the same on both sides of a comparison (a symbol, case folding)
+	nested = append(nested, eqNode{T: "stack", Kind: "AND", Sym: "+", Kids: []eqNode{leaves[1]}}, eqNode{T: "stack", Kind: "NOT", Sym: "!", Fold: true, Kids: []eqNode{leaves[0], leaves[1]}},
+		eqNode{T: "stack", Kind: "OR", Fold: true, Kids: []eqNode{leaves[1]}})
 	elems = append(elems, nested...)
 	for _, s := range nested[:6] {
 		elems = append(elems, eqNode{T: "cond", Kw: "k2", Op: 3, Kids: []eqNode{s}})
